@@ -9,6 +9,8 @@ impl DeclarationElsewhere {
         &self,
         tlds: &'a BTreeMap<String, ToplevelDefinition>,
     ) -> Result<&'a ASN1Type, GrammarError> {
+        #[cfg(feature = "verif-hooks")]
+        let _verif_depth = crate::verif_hooks::enter();
         match tlds.get(&self.identifier).ok_or_else(|| GrammarError::new(
             &format!("Failed to resolve reference of ElsewhereDefined: {}", self.identifier),
             super::GrammarErrorType::LinkerError
